@@ -104,7 +104,7 @@ def rule_static_storage(ctx, config='default'):
                         root = strip(root['inner'][0])
                     if root.get('kind') == 'DeclRefExpr' and root['referencedDecl'].get('kind') == 'VarDecl' and _is_global_ref(root):
                         dep = _depends_on_inputs(fn, d['inner'][1]) if is_assign(d) and d.get('opcode') == '=' else True
-                        written.setdefault(root['referencedDecl']['name'], []).append((cfile, fname, line_of(d), dep))
+                        written.setdefault(root['referencedDecl']['name'], []).append((cfile, fname, line_of(d), dep, render(d['inner'][1]) if is_assign(d) else '++'))
                 if d.get('kind') == 'UnaryOperator' and d.get('opcode') == '&':
                     root = strip(d['inner'][0])
                     while root.get('kind') in ('MemberExpr', 'ArraySubscriptExpr'):
@@ -118,6 +118,16 @@ def rule_static_storage(ctx, config='default'):
             continue
         if name in written:
             deps = [w for w in written[name] if w[3]]
+            distinct = sorted({w[4] for w in written[name]})
+            whole = strip(d) if False else None
+            if not deps and len(distinct) > 1 and all(render(strip(x['inner'][0])) == name for c2, tu2 in tus.items() for fn2 in tu2.funcs.values() if cfront.body(fn2) is not None for x in walk(cfront.body(fn2)) if is_assign(x) and render(strip(x['inner'][0])) == name):
+                # the object itself (not an element of a table) is assigned different values at different sites: which one it
+                # holds depends on which branch ran last - for which simulation - although no right-hand side mentions one
+                w = written[name][0]
+                ctx.report('R19.1', 'global:%s' % name, where,
+                           'mutable file-scope object %s %s is assigned %d different values (%s ...) in %s: which one it holds depends on the simulation that ran last - state shared by all simulations of the process'
+                           % (qtype(d), name, len(distinct), ', '.join(distinct[:3]), w[1]))
+                continue
             if not deps:
                 # every write stores a value that does not depend on any simulation (literals, other such constants): idempotent
                 # initialisation of a constant table - all simulations write the same bits
